@@ -30,7 +30,8 @@ RULE = ("seeded random class families (4-8 classes: roots, single/multiple inher
         "(dotted items only; the group is instantiated after its class-typed members), 30 % of the option defaults are given "
         "as a STRING (class name or class path); one case per "
         "family is a fault history in one process (a parser with an invalid option default fails first, then a fresh parser "
-        "sees a class change); plus 200 hand-made cases in every run (dotted null two levels down, "
+        "sees a class change); plus 230 hand-made cases in every run (dotted null two levels down, invalid string defaults "
+        "(open finding string-default-unchecked), diamonds, "
         "functions with related/unrelated return type, same-named parameter of another type across a class change, "
         "dict_kwargs naming a parameter, abstract declared type, two-level nested construction, prefix-named options / "
         "parameters with merged config sources, a family that grows between two parses, Dict[str, C] / List[C] options in "
@@ -95,7 +96,7 @@ ASSUMPTIONS = [
     "every fuel and exclude OutOfFuel by hypothesis (depth v < n) or by concluding from an Ok result",
 ]
 EXHAUSTIVE = {"quick": False, "thorough": False}
-FINDING_CLASSES = {1: "nested-null-restringified"}
+FINDING_CLASSES = {1: "nested-null-restringified", 2: "string-default-unchecked"}   # 1: fixed in /repo 389f511; 2: open
 # "judge": model of the code as it is (finding class 1 open). After fixes/C14-nested-null-restringified.patch has been
 # applied to /repo set this to "judge_fixed" (model with the NestedArg value handed down unchanged, no finding class).
 JUDGE = os.environ.get("C14_JUDGE", "judge_fixed")  # repair landed: /repo 389f511
@@ -117,8 +118,10 @@ META = {
                   "fails (nothing is picked silently); C14_accepted_is_subclass_and_valid_spec_defaults / "
                   "C14_accepted_builds_configured_object_spec_defaults — the first and third theorem also for families whose "
                   "class-typed parameters default to a class spec (lazy_instance), under fam_wf2. "
-                  "C14_dotted_null_refuted exhibits the one finding (fixed in /repo 389f511: dotted sub-option with "
-                  "null two levels down was rejected while the explicit form was accepted). The Gallina model is tied to the real "
+                  "C14_dotted_null_refuted exhibits the first finding (fixed in /repo 389f511: dotted sub-option with "
+                  "null two levels down was rejected while the explicit form was accepted); C14_string_default_refuted exhibits "
+                  "the open finding string-default-unchecked (an option default given as a string that does not name a subclass "
+                  "of the declared type is returned unchecked by parse_args([]) - finding class 2, listed open). The Gallina model is tied to the real "
                   "parse_args/parse_object + instantiate_classes on generated class families written to real modules (2000 "
                   "cases quick, 17k thorough); model agreement, spec agreement and the explicit-form twin are judged inside Coq.",
     "level_note": "Partial: C14_accepted_is_subclass_and_valid and C14_accepted_builds_configured_object assume fam_wf (no "
@@ -992,7 +995,7 @@ def _gen_case(rng, fam, base=None, kind=None):
         elif kind == "group":
             t = gen_tree(rng, fam, base, clean=rng.random() < 0.8, cp=path_of(fam, base))
             t["dk"] = []
-            steps = group_steps(steps_for(rng, t, [], True)[1:])
+            steps = group_steps(steps_for(rng, t, [], True)[1:], [p["name"] for p in cls_of(fam, base)["params"]])
             channel = "group"
             if not steps:      # nothing given: an option would hold None, a group holds its defaults - not comparable
                 steps, channel = [{"raw": {"s": base}}], "argv"
@@ -1059,8 +1062,15 @@ def _gen_case(rng, fam, base=None, kind=None):
         return c
 
 
-def group_steps(steps):
-    """argv items for a class group: dotted items only, no init_args level directly below the group"""
+def group_steps(steps, pnames=()):
+    """argv items for a class group: dotted items only, no init_args level directly below the group; an unknown first-level
+    key that is a proper prefix of a parameter name is left out (--x.a is argparse's abbreviation of --x.ab for a group's
+    own options: allow_abbrev, not a C14 input)"""
+    abbrev = lambda k: k not in pnames and any(n.startswith(k) for n in pnames)  # noqa: E731
+    return [st for st in _group_steps(steps) if not abbrev(st["nested"][0])]
+
+
+def _group_steps(steps):
     out = []
     for st in steps:
         if "nested" in st:
@@ -1328,6 +1338,15 @@ def fixed_cases():
         add(f13, "Holder", [{"nested": ["h"], "raw": S(nm)}, {"nested": ["o"], "raw": S(nm)}])
         add(f13, "Base", [{"raw": S("R")}, {"raw": S(nm)}], channel="sub")
     out.append(cont_case(f13, "Base", "list", [{"list": [S("D"), S("Deep"), S("L")], "via": "opt"}]))
+    # a string default that does NOT name a subclass of the declared type (open finding string-default-unchecked when no item
+    # addresses the option; rejected as soon as one does), and one that does not import
+    for ds in ("jvfix11.Plain", "jvfix11.Nope", "Plain"):
+        for steps in ([], [{"nested": ["b"], "raw": S("w")}], [{"raw": S("jvfix11.Sub")}, {"nested": ["b"], "raw": S("w")}],
+                      [{"raw": D(("init_args", D(("a", I(4)))))}]):
+            c = {"fam": f, "base": "Sub", "dflt": {"spec": {"cp": ds, "ia": [], "dk": []}}, "steps": steps, "channel": "argv",
+                 "twin": None, "dflt_str": ds}
+            c["twin"] = _twin(c)
+            out.append(c)
     fm = dict(f, mod="jvfix11f9")
     c = {"fam": fm, "base": "Holder", "dflt": None, "channel": "argv", "twin": None,
          "steps": [{"nested": ["h"], "raw": S("Sub")}, {"nested": ["h"], "raw": S("jvfix11f9.Base")}]}
@@ -1562,11 +1581,12 @@ def term(case, obs):
                 g_str(o["base"]), g_opt(g_value(o["dflt"]) if o["dflt"] is not None else None),
                 g_list([g_input(x) for x in project(m["argv"], o["name"], m["opts"][0]["name"])], "input"), g_obs(ob)))
     return ("{| k_fam := %s; k_base := %s; k_dflt := %s; k_steps := %s; k_obs := %s; k_twin := %s; k_object := %s; "
-            "k_sibs := %s; k_cont := %s |}") % (
+            "k_sibs := %s; k_dstr := %s; k_cont := %s |}") % (
         g_family(case["fam"]), g_str(case["base"]),
         g_opt(g_value(case["dflt"]) if case["dflt"] is not None else None),
         g_list([g_input(s) for s in case["steps"]], "input"), g_obs(None if case.get("cont") else obs["main"]), twin,
-        g_bool(case["channel"] in ("object", "multi", "cont", "group")), g_list(sibs, "part"), cont)
+        g_bool(case["channel"] in ("object", "multi", "cont", "group")), g_list(sibs, "part"),
+        g_bool(case.get("dflt_str") is not None), cont)
 
 
 # ------------------------------------------------------------------------------------------------
